@@ -1002,10 +1002,21 @@ pub fn run(ctx: &mut Ctx) {
     for p in gen::configs(ctx) {
         ctx.case("optok", true, &format!("optok {} {}", p.nr_cols, p.max_bit_len), "1");
     }
+    crate::oracles::vector_oracle(ctx);
+    crate::oracles::batch_oracle(ctx);
+    crate::mapops::map_oracle(ctx);
     let cases = gen::cases(ctx);
     let budget = if ctx.quick() { 6 } else if ctx.thorough() { 10 } else { 8 };
     for case in &cases {
-        let Some((rec, _out)) = run_case(ctx, case, true) else { continue };
+        let Some((rec, out)) = run_case(ctx, case, true) else { continue };
+        let vector_case = case.kind.starts_with('v') || case.kind.starts_with("map:");
+        if vector_case {
+            crate::oracles::vec_value_oracle(ctx, case, &out);
+            if ctx.search() {
+                // failing inputs of the vector operations come from `vector_oracle` / the value oracle
+                continue;
+            }
+        }
         let oracle_case = case.kind.starts_with("bc:");
         if oracle_case {
             range_oracle(ctx, case, &rec);
@@ -1015,9 +1026,17 @@ pub fn run(ctx: &mut Ctx) {
             }
         }
         let Some(honest) = honest_accept(ctx, case, &rec) else { continue };
-        let budget = if oracle_case { budget.min(if ctx.quick() { 0 } else { 2 }) } else { budget };
+        let budget = if oracle_case {
+            budget.min(if ctx.quick() { 0 } else { 2 })
+        } else if vector_case {
+            // vector / map programs are many and large: a few faults each (their failing inputs come
+            // from the dedicated oracles)
+            if ctx.quick() { 2 } else { 4 }
+        } else {
+            budget
+        };
         tamper_case(ctx, case, &rec, honest, budget);
-        if !ctx.quick() && !oracle_case {
+        if !ctx.quick() && !oracle_case && !vector_case {
             if let Some(h2) = honest_accept(ctx, case, &rec) {
                 pair_search(ctx, case, &rec, h2, if ctx.search() { 40 } else { 40 });
             }
